@@ -351,7 +351,7 @@ func TestVerifC18EventListBehaviour(t *testing.T) {
 func TestVerifC18UsedMessageReceivers(t *testing.T) {
 	r := vkit.Start(t, "C18", "used-message-receivers", 60*time.Second, 300*time.Second)
 	defer r.Finish()
-	r.Rule = "Update and EventList messages with 0, 1, 2 and 4 events: every ordered pair (first, second) of them, JSON and CBOR: decode first into a value, decode second into the SAME value; non-trivial = distinct (type, first, second, encoding); oracle: re-encoding equals the second message's bytes and equals what a fresh value gives; a re-read Update verifies iff the second message does"
+	r.Rule = "Update and EventList messages with 0, 1, 2 and 4 events (also event lists without events): every ordered pair (first, second) of them, JSON and CBOR: decode first into a value, decode second into the SAME value; non-trivial = distinct (type, first, second, encoding); oracle: re-encoding equals the second message's bytes and equals what a fresh value gives; a re-read Update verifies iff the second message does"
 	if r.Shard != 0 {
 		return
 	}
@@ -401,8 +401,8 @@ func TestVerifC18UsedMessageReceivers(t *testing.T) {
 						r.Violate("C18|used-receiver-keeps-old-content|Update|"+cd.name, fmt.Sprintf("%s: decode errors %v / %v, re-encodings equal=%v, verify %v / %v", desc, e1, e2, bytes.Equal(bu, bf), v1, v2), desc)
 					}
 				}
-				// EventList (needs at least one event)
-				if fa <= last && fb <= last {
+				// EventList (also without events)
+				{
 					r.Eval()
 					desc := fmt.Sprintf("EventList %s: %d events then %d events", cd.name, last-fa+1, last-fb+1)
 					r.Nontrivial(desc)
@@ -418,10 +418,18 @@ func TestVerifC18UsedMessageReceivers(t *testing.T) {
 					bb, _ := cd.enc(mk(fb))
 					used, fresh := &revocation.EventList{ComputeProduct: true}, &revocation.EventList{ComputeProduct: true}
 					if err := cd.dec(ba, used); err != nil {
-						r.Violate("C18|message-not-decodable|"+cd.name+"|EventList", err.Error(), desc)
+						r.Violate("C18|message-not-decodable|"+cd.name+"|EventList", desc+": "+err.Error(), desc)
 						continue
 					}
-					e1, e2 := cd.dec(bb, used), cd.dec(bb, fresh)
+					var e1, e2 error
+					if pan, msg := vkit.Guard(func() { e1, e2 = cd.dec(bb, used), cd.dec(bb, fresh) }); pan {
+						r.Violate("C18|decoder-panicked|"+cd.name+"|EventList", desc+": "+msg, desc)
+						continue
+					}
+					if e2 != nil {
+						r.Violate("C18|message-not-decodable|"+cd.name+"|EventList", desc+": "+e2.Error(), desc)
+						continue
+					}
 					bu, _ := cd.enc(used)
 					bf, _ := cd.enc(fresh)
 					same := (e1 == nil) == (e2 == nil) && bytes.Equal(bu, bf)
